@@ -395,6 +395,14 @@ _amend("C18", "rule", "handler header/trailer metadata,", "handler header/traile
 
 _amend("C11", "rule", "Non-trivial", "After every step 20 probes per service (7 services; HTTP annotated route, implicit route over HTTP and gRPC, a route with a path variable and a query, and a Tree binding that shares route-tree nodes with other services' bindings). Backend B2 is built from a copy of the schema with reversed field declaration order; B3 serves two services declared in one proto file. Non-trivial")
 
+_amend("C02", "rule", "Non-trivial", "One request in four reaches the mux through a client spelling of its path that is not Go's canonical escaping (percent-encoded unreserved characters, upper/lower-case hex, optional trailing slash), so URL.RawPath is set as it is for real clients. Non-trivial")
+_amend("C05", "rule", "Non-trivial", "Before failing, the handler does nothing / SetHeader / SendHeader. Non-trivial")
+_amend("C09", "rule", "x handler script", "x handler script (incl. handlers that outlast short grpc-timeout values: they wait for their context, 60 ms at most, before replying)")
+_amend("C12", "rule", "multi-bad (fails on last method)", "multi-bad (fails on its last unary method), multi-bad-s (fails in its streaming method, after both valid unary ones)")
+_amend("C13", "rule", "release order drawn;", "release order drawn; with a receive limit one call in eight is a unary body over the limit (refused; what it leaves in the pools must not hurt the parked calls);")
+_amend("C15", "rule", "connection close for HTTP/1.1,", "connection close for HTTP/1.1 (half of those with a trailing slash on the path, which the mux normalises before routing),")
+_amend("C16", "rule", "All generated methods share the short name Mth", "The response type (rt.Rsp) differs from the request type (rt.Req), each with a message field the other lacks. All generated methods share the short name Mth")
+
 # native coverage-guided fuzzing of the same generators (thorough tier only)
 for _k, _t in (("C01", "FuzzRoute"), ("C03", "FuzzTranscode"), ("C16", "FuzzRegister"), ("C17", "FuzzCodec")):
     PROPS[_k]["fuzz"] = {"target": _t, "seconds": 120}
